@@ -1,7 +1,7 @@
 #!/usr/bin/env python3
 """Generates /verif/MANIFEST.json from the table below (run after adding a property's rules)."""
 import json, subprocess
-BUILT = "C01 C02 C03 C04 C05 C06 C07 C08 C09 C10 C11 C12 C13 C14 C15".split()
+BUILT = "C01 C02 C03 C04 C05 C06 C07 C08 C09 C10 C11 C12 C13 C14 C15 C16 C17 C18".split()
 NA = {}  # property -> reason (genuinely not applicable)
 TECH = {
  "C01": "state-graph dominance (K1) + CFG path rules on gate routing/order (K2,K3) + exact caller sets (K4) over go/types+go/cfg",
@@ -18,6 +18,9 @@ TECH = {
  "C13": "schema/statement agreement over the constant SQL and entry structs (K8): INSERT/UPDATE/SELECT closure, per-column writer-source = reader-destination, storage classes; field coverage from go/types (K7); not-found path rule (K2)",
  "C14": "transaction-scope pairing (K3,K11), error discipline at every call site of the create/delete scope (K6), delete traversal coverage from go/types and DELETE statement lint (K7,K8)",
  "C15": "SQL predicate lint (K8), symbolic expansion of the query builder's CFG paths into templates (K2,K8), stream close/connection ownership pairing (K3), sibling-literal agreement (K7)",
+ "C16": "pipeline ordering on CFG paths (K3), required-field guard table on every accepting path (K2), child coverage from go/types (K7), def-use of the shared key set (K11), comparison shape (K5), error discipline (K6)",
+ "C17": "reflect.Kind dispatch coverage and callee-assertion contradiction check (K9), scrub-before-return dominance (K3), aliasing lint (K7), call-order and recursion discipline (K4,K6)",
+ "C18": "field coverage and aliasing lint from go/types (K7), branch-scoped assignment of engine-owned fields and nil-result guards (K2)",
  "C09": "terminal-status guard dominance on CFG paths (K2), fix* prologue guards (K10), exact caller sets (K4)",
 }
 def text(p):
